@@ -171,7 +171,7 @@ func runQueueProgram(p qprog, rng *Rng, choices []int) qrun {
 			s.record(J{"ret": "RemoveAll", "t": t})
 		})
 	}
-	res.status = s.run(400)
+	res.status = s.run(200 + 10*p.steps())
 	res.branch, res.picked = s.branch, s.picked
 	res.nthr = len(s.gs)
 	if res.status != "done" {
